@@ -9,6 +9,10 @@ ids = [json.loads(l)['id'] for l in (V / 'properties.jsonl').read_text().splitli
 TECH = 'contract-based deductive verification: own VC generator (pyvc) over the real .py/.pyx source, sidecar contracts, z3/cvc5'
 
 CLAIMED = {
+	'C06': dict(
+		text='Lemmas over the C01 contract of calc_signature (result = strictly increasing array of exactly the x with sig(kmerspec, contig, x) for SOME contig; re-verified here for the default accumulator): reverse-complementing a contig leaves sig unchanged (forward matches become the mirrored reverse matches with the same k-mer index: inductive lemma encrc(RC(s)) = enc(s), complement is an involution), letter case leaves it unchanged (sig depends on the bytes through up() only), the union is invariant under any rearrangement of signature-equivalent contigs, and two strictly increasing arrays with the same members are the same array - so the signature array is identical; the union clause / no k-mer across contigs IS the postcondition. File glue verified over an assumed stream model: guess_compression decides by the first two CONTENT bytes for every path string, _open_auto / open_compressed (24 mode x compression instances incl. the ValueError cases) / SequenceFile.open / SequenceFile.parse build text>gzip>file exactly when the content starts with 1f 8b and hand the parser the stream over the file\'s own path and format; calc_file_signature = calc_signature over the sequences of ALL records in file order (sig opaque at this level). Line width, CRLF, final newline, gzip decoding are decided inside Bio.SeqIO / gzip / TextIOWrapper (external): BOUNDED stand-in only (real calc_file_signature on generated files under all rewrites).',
+		note='Trusted: C01 base, induction as a proof rule (base/step obligations), stream model. Bounded only: everything the FASTA parser / gzip / text decoding decide.',
+		design='3/C06'),
 	'C11': dict(
 		text='The column table of the CSV exporter is verified cell by cell (label; reported taxon name/rank/ncbi_id/threshold; closest distance and genome description; next taxon fields; empty cell exactly when the taxon is absent), the header, the export loop (one row per item, in order, after the header), the JSON item mapping (query, predicted_taxon = reported taxon, next_taxon, closest_genomes), the taxon/genome key sets of the JSON and archive writers, and the writer options set by __init__. The quoting contract of the csv module is an obligation on csv.writer(**options): every field containing a character that ends a record for the reader must be quoted under the options in use - it FAILS for a bare carriage return (lineterminator is "\\n"), the string counter-model is replayed through the real exporter and csv.reader, and it is listed as a known finding. The read-back side (CSV/JSON parse, archive reader) is bounded only.',
 		note='Trusted: csv/json/attrs/cattrs/ORM contracts. Known finding: bare CR in a name splits the CSV row (known_findings.json). Bounded only: read-back of all three formats.',
